@@ -26,6 +26,11 @@ func poisonMembers(last geom.T) *geom.GeometryCollection {
 // failWKT: a NoLayout member is rejected after "GEOMETRYCOLLECTION (POINT (...), LINESTRING (...), ".
 func failWKT(digits int) {
 	defer func() { _ = recover() }()
+	if digits < 0 {
+		// and a SUCCESSFUL call with an option before the plain call under test: an option belongs
+		// to the call it is passed to
+		_, _ = wkt.Marshal(geom.NewPointFlat(geom.XY, []float64{0.123456789, 9.87654321}), wkt.EncodeOptionWithMaxDecimalDigits(1))
+	}
 	bad := poisonMembers(geom.NewLineString(geom.NoLayout))
 	if digits >= 0 {
 		_, _ = wkt.Marshal(bad, wkt.EncodeOptionWithMaxDecimalDigits(digits))
@@ -48,6 +53,9 @@ func failWKB() {
 // failGeoJSON: GeoJSON has no LinearRing; the collection fails at its last member.
 func failGeoJSON(opts ...geojson.EncodeGeometryOption) {
 	defer func() { _ = recover() }()
+	if len(opts) == 0 {
+		_, _ = geojson.Marshal(geom.NewPointFlat(geom.XY, []float64{0.123456789, 9.87654321}), geojson.EncodeGeometryWithMaxDecimalDigits(1), geojson.EncodeGeometryWithBBox())
+	}
 	bad := poisonMembers(geom.NewLinearRingFlat(geom.XY, []float64{0, 0, 1, 0, 1, 1, 0, 0}))
 	_, _ = geojson.Marshal(bad, opts...)
 	_, _ = json.Marshal(&geojson.Feature{ID: "poison", Geometry: bad})
